@@ -174,19 +174,7 @@ theorem quiescent_complete (h : Reach lim ls s) (hpos : ∀ n, lim = some n → 
     intro w p hp
     cases p with
     | pending => rfl
-    | spawned =>
-      exfalso
-      have hne := hi.live_stream w _ hp rfl
-      have hne2 := hi.nonempty w (Or.inr hp)
-      cases hst : s.streams w.key with
-      | none => exact hne hst
-      | some b =>
-        cases b with
-        | nil => exact hne2 hst
-        | cons i r =>
-          cases i with
-          | ev e => have := hq (.take w e) rfl; simp [step, stepCore, hcl, hp, hst] at this
-          | eos => have := hq (.eosExit w) rfl; simp [step, stepCore, hcl, hp, hst] at this
+    | spawned => exfalso; have := hq (.start w) rfl; simp [step, stepCore, hcl, hp] at this
     | waiting =>
       exfalso
       have hne := hi.live_stream w _ hp rfl
@@ -295,7 +283,7 @@ theorem independent_spawn (s : State) :
 /-- **Frame**: a worker segment of key `k'` leaves every other key's component untouched — stream,
     histories, failure flag and the program counters of all other keys' instances. -/
 theorem frame_other_key {s s' : State} {l : Label} {w : Wid} (k : Key) (hk : w.key ≠ k)
-    (hl : l = .take w e ∨ l = .finish w ∨ l = .fail w ∨ l = .timeoutTake w e ∨ l = .retire w ∨
+    (hl : l = .start w ∨ l = .take w e ∨ l = .finish w ∨ l = .fail w ∨ l = .timeoutTake w e ∨ l = .retire w ∨
           l = .eosExit w ∨ l = .kill w)
     (h : step s l = some s') :
     s'.streams k = s.streams k ∧ s'.arrived k = s.arrived k ∧ s'.started k = s.started k ∧
@@ -304,32 +292,37 @@ theorem frame_other_key {s s' : State} {l : Label} {w : Wid} (k : Key) (hk : w.k
   have hk' : k ≠ w.key := fun h => hk h.symm
   have hw : ∀ w' : Wid, w'.key = k → w' ≠ w := by
     intro w' h1 h2; rw [h2] at h1; exact hk h1
-  rcases hl with rfl | rfl | rfl | rfl | rfl | rfl | rfl <;> step_cases h <;>
+  rcases hl with rfl | rfl | rfl | rfl | rfl | rfl | rfl | rfl <;> step_cases h <;>
     simp_all
+
+/-- a state without instances, pending coroutines or an event in hand, watch alive: nothing internal
+    is enabled (for the real `step` and the broken variant alike) -/
+theorem quiescent_of_idle {b : Bool} {s : State} (hpc : ∀ w, s.pc w = none) (hq : s.pendingQ = [])
+    (hh : s.hand = none) (hc : s.closing = false) : Quiescent (stepCore b) s := by
+  intro l hl
+  cases l <;> simp [Label.internal] at hl <;> simp [stepCore, hpc, hq, hh, hc]
 
 /-- **Non-vacuity of the whole development**: split the worker's retirement into "see the empty
     backlog" and "`del streams[key]`" with one interleaving point in between (`stepBuggy`), and an event
     arriving in that window is lost for ever: the system is quiescent, the watch alive, and
-    `processed ≠ arrived`. Explicit 9-label witness. -/
+    `processed ≠ arrived`. Explicit 10-label witness. -/
 theorem buggy_loses :
     ∃ ls s, ReachBuggy none ls s ∧ Quiescent stepBuggy s ∧ s.closing = false ∧
       s.failedK 0 = false ∧ s.arrived 0 = [1, 2] ∧ s.processed 0 = [1] := by
-  refine ⟨[.miss 0 1, .insert, .spawn, .take ⟨0, 0⟩ 1, .finish ⟨0, 0⟩, .retireCheck ⟨0, 0⟩,
+  refine ⟨[.miss 0 1, .insert, .spawn, .start ⟨0, 0⟩, .take ⟨0, 0⟩ 1, .finish ⟨0, 0⟩, .retireCheck ⟨0, 0⟩,
            .arrive 0 2, .retireErase ⟨0, 0⟩, .left ⟨0, 0⟩], _, rfl, ?_, rfl, rfl, by decide, by decide⟩
-  have hpc : ∀ w : Wid, (upd (upd (upd (upd (upd (upd (upd (init none).pc ⟨0, 0⟩ (some .pending)) ⟨0, 0⟩
-      (some .spawned)) ⟨0, 0⟩ (some (.busy 1))) ⟨0, 0⟩ (some .waiting)) ⟨0, 0⟩ (some .checked)) ⟨0, 0⟩
-      (some (.leaving false))) ⟨0, 0⟩ none) w = none := by
-    intro w; by_cases hw : w = ⟨0, 0⟩ <;> simp [hw, init]
-  intro l hl
-  cases l <;> simp [Label.internal] at hl <;>
-    simp [stepBuggy, stepCore] <;> (try split) <;> simp_all [init]
+  apply quiescent_of_idle
+  · intro w; by_cases hw : w = ⟨0, 0⟩ <;> simp [hw, init]
+  · rfl
+  · rfl
+  · rfl
 
 -- ---- non-vacuity of the hypotheses --------------------------------------------------------------
 
 /-- a reachable, non-trivial state meeting the hypotheses of `lossless_ordered`, `stream_iff_worker`,
     `inflight_spec`, `serial`: key 0 busy with event 1 while 2 waits, key 1 busy with 3, limit 2. -/
 def exampleTrace : List Label :=
-  [.miss 0 1, .insert, .spawn, .take ⟨0, 0⟩ 1, .arrive 0 2, .miss 1 3, .insert, .spawn, .take ⟨1, 0⟩ 3]
+  [.miss 0 1, .insert, .spawn, .start ⟨0, 0⟩, .take ⟨0, 0⟩ 1, .arrive 0 2, .miss 1 3, .insert, .spawn, .start ⟨1, 0⟩, .take ⟨1, 0⟩ 3]
 
 example : ∃ s, Reach (some 2) exampleTrace s ∧ s.closing = false ∧ s.closed = false ∧
     s.failedK 0 = false ∧ s.pc ⟨0, 0⟩ = some (.busy 1) ∧ s.pc ⟨1, 0⟩ = some (.busy 3) ∧
@@ -340,14 +333,14 @@ example : ∃ s, Reach (some 2) exampleTrace s ∧ s.closing = false ∧ s.close
 /-- the dangerous schedule itself, in the model of the real code: the idle worker retires (atomically),
     the event that "arrived at that very instant" finds no stream, a second generation is spawned and
     processes it; the final state is quiescent and complete. -/
-example : ∃ s, Reach none [.miss 0 1, .insert, .spawn, .take ⟨0, 0⟩ 1, .finish ⟨0, 0⟩, .retire ⟨0, 0⟩,
-      .miss 0 2, .insert, .left ⟨0, 0⟩, .spawn, .take ⟨0, 1⟩ 2, .finish ⟨0, 1⟩, .retire ⟨0, 1⟩,
+example : ∃ s, Reach none [.miss 0 1, .insert, .spawn, .start ⟨0, 0⟩, .take ⟨0, 0⟩ 1, .finish ⟨0, 0⟩, .retire ⟨0, 0⟩,
+      .miss 0 2, .insert, .left ⟨0, 0⟩, .spawn, .start ⟨0, 1⟩, .take ⟨0, 1⟩ 2, .finish ⟨0, 1⟩, .retire ⟨0, 1⟩,
       .left ⟨0, 1⟩] s ∧ s.closing = false ∧ s.processed 0 = [1, 2] ∧ s.arrived 0 = [1, 2] :=
   ⟨_, rfl, rfl, by decide, by decide⟩
 
 /-- the other order of the same instant: the event is put first, the timeout fires on a filled queue
     (`timeoutTake`, the case the code comment calls impossible to simulate), nothing is lost either. -/
-example : ∃ s, Reach none [.miss 0 1, .insert, .spawn, .take ⟨0, 0⟩ 1, .finish ⟨0, 0⟩, .arrive 0 2,
+example : ∃ s, Reach none [.miss 0 1, .insert, .spawn, .start ⟨0, 0⟩, .take ⟨0, 0⟩ 1, .finish ⟨0, 0⟩, .arrive 0 2,
       .timeoutTake ⟨0, 0⟩ 2, .finish ⟨0, 0⟩] s ∧ s.processed 0 = [1, 2] ∧ s.arrived 0 = [1, 2] :=
   ⟨_, rfl, by decide, by decide⟩
 
